@@ -71,6 +71,12 @@ CHECKS = {
             "the fresh-state model exactly, and the injected exception surfaces (or is chained).",
             "Exhaustive over the points of the generated programs; the set of programs is sampled. Hook: icontract._checkers._IN_PROGRESS "
             "(read only; if absent the behavioural monitor still decides).", "3/C11"),
+    "C12": ("exploration", "runtime monitoring under controlled schedules: gate director enumerating release orders for asyncio tasks and threads, plus free-running stress with switch interval 1e-6 and sys.monitoring LINE yield injection",
+            "Configurations of 2..3 concurrent calls x context-inheritance modes; probes park at gates inside conditions and bodies and a "
+            "director releases one at a time along depth-first enumerated choice sequences (exhaustive for the quick configurations); "
+            "the stress tier samples statement-level preemption inside the checker module. Every call's verdict is compared with its "
+            "sequential verdict.",
+            "Gate-level interleavings are enumerated, statement-level ones sampled; watchdog firing = inconclusive.", "3/C12"),
     "C13": ("exploration", "runtime monitoring: differential event traces of paired def / async def renderings of the same program under identical probes",
             "Each generated program is rendered twice and driven with identical truth assignments and body scripts; the monitor compares "
             "the probe logs and outcomes of the two renderings and both against the model; async-only condition forms are mixed into "
